@@ -236,6 +236,11 @@ def build_corpus(rng, tier, scale=1):
             other = rng.choice(base)["data"]
             d = corrupt(c["data"], kind, rng, other)
             add(d, "corrupted", f"{kind}({c['label']})", named=c["named"])
+    # one LARGE input (a 17 MiB constant, immediately popped): size-dependent paths -- spooling, chunked
+    # reads of non-seekable streams -- must be as inert as the small ones (added last: not corrupted/stacked)
+    add(asm.assemble([("PROTO", 4), ("BINBYTES", b"\x00" * (17 << 20)), "POP",
+                      ("GLOBAL", ("os", "getcwd")), "EMPTY_TUPLE", "REDUCE", "STOP"]),
+        "assembled", "large-17MiB-constant+os.getcwd/REDUCE", named=["os"])
     return cases
 
 
@@ -298,6 +303,35 @@ def run_children(cases, entries, scratch, with_torch=True, nchild=NCHILD, timeou
 def is_stdlib(mod):
     top = mod.split(".")[0]
     return top in sys.stdlib_module_names
+
+
+def hex_or_rle(data):
+    """replayable text form of an input: plain hex, or for big inputs hex with runs of one byte written as
+    <byte*count> (the 17 MiB constant is one run)"""
+    if len(data) <= (1 << 16):
+        return data.hex()
+    out, i, n = [], 0, len(data)
+    while i < n:
+        j = i
+        while j < n and data[j] == data[i]:
+            j += 1
+        if j - i >= 64:
+            out.append("<%02x*%d>" % (data[i], j - i))
+        else:
+            out.append(data[i:j].hex())
+        i = j
+    return "".join(out)
+
+
+def from_hex_or_rle(text):
+    import re
+    out = bytearray()
+    for m in re.finditer(r"<([0-9a-f]{2})\*(\d+)>|([0-9a-f]+)", text):
+        if m.group(3) is not None:
+            out += bytes.fromhex(m.group(3))
+        else:
+            out += bytes([int(m.group(1), 16)]) * int(m.group(2))
+    return bytes(out)
 
 
 def named_by_input(mod, data):
@@ -413,7 +447,7 @@ def evaluate(chk, cases, results, meta, pred, count=True):
             for m in r["new_modules"]:
                 lm = chk.stats.setdefault("lazy_imports", {})
                 lm[m] = lm.get(m, 0) + 1
-        doc = {"input_hex": c["data"].hex(), "family": c["family"], "label": c["label"], "entry": r["entry"],
+        doc = {"input_hex": hex_or_rle(c["data"]), "family": c["family"], "label": c["label"], "entry": r["entry"],
                "outcome": r["outcome"], "observed_classes": sorted(classes), "unexpected": bad[:8],
                "events": r["events"][:12], "size": len(c["data"])}
         if bad:
@@ -525,7 +559,7 @@ def main(tier, seed):
                 c = next((c for c in state["cases"] if c["id"] == cid), None)
                 if c is not None:
                     return {"oracle": "the sandboxed child died / hung while running this input",
-                            "input_hex": c["data"].hex(), "entry": a["running"][1], "label": c["label"],
+                            "input_hex": hex_or_rle(c["data"]), "entry": a["running"][1], "label": c["label"],
                             "child_output": a["output"]}
             # ... then a larger corpus with fresh corruptions
             for rnd in range(2 if tier == "quick" else 3):
@@ -552,7 +586,7 @@ def replay(path):
         return main("quick", doc.get("seed", 0))
     scratch = os.path.join(BUILD, "scratch", f"c01-replay-{os.getpid()}")
     try:
-        data = bytes.fromhex(case["input_hex"])
+        data = from_hex_or_rle(case["input_hex"])
         cases = [{"id": 0, "data": data, "family": case.get("family", "replay"), "label": case.get("label", ""),
                   "named": []}]
         results, abnormal, meta = run_children(cases, ENTRIES, scratch, nchild=1, timeout=300)
